@@ -21,6 +21,7 @@ EXPLANATION = (
     "(R4) read_graphs splits blocks only by `line starts with '#'` (all three scanning loops), so '#S' lines open / belong to a block like any header line.  "
     " (R5) no exit of read_graph precedes the constraint check and every exit stores n, m, w; a weight that float() accepts but is not finite is rejected; read_graphs rejects non-blank content before the first header. "
     "the graph after the last add_edge.  NOT decided: that the graph equals the file's content (round trip over runtime text)."
+    " (R5, seeds 6) the filter that drops repeated '#S' lines is keyed by the node sequence in order (no set / frozenset / sorted of the edges)."
 )
 DECIDED = ["malformed edge line / non-numeric weight or count / constraint edge missing from the graph raise ValueError on every path",
            "stored n, m, w are computed from the finished graph"]
@@ -129,6 +130,44 @@ def exits_after_validation(prog: Program, rep, RID: str):
     else:
         rep.violation(RID, key, "the loop that moves to the next header skips any line: content before the first '#' line (a first header that lost its '#', a file "
                       "without headers) is dropped without an error and the file comes back with fewer graphs", g.loc(first_skip))
+
+
+def distinct_lines_distinct_constraints(prog: Program, rep, RID: str):
+    """Each distinct '#S' line is one subpath constraint.  read_graph drops repeated lines through a `seen` set: the key of that set has to determine the
+    line's node sequence (tuple of the nodes / of the edges in order, the stripped text).  A key that forgets order or multiplicity - a set / frozenset /
+    sorted() of the edges - identifies different walks over the same edges (`a b c a` and `b c a b`) and the later line is silently dropped."""
+    from rules.common import all_local_defs, substitute_locals
+    f = prog.function("flowpaths.utils.graphutils", "read_graph")
+    defs = all_local_defs(f.node)
+    apps = [c for c in calls_in(f.node) if isinstance(c.func, ast.Attribute) and c.func.attr == "append" and "constraint" in norm(c.func.value)]
+    if not apps:
+        raise AnalysisError("read_graph: no append to the list of constraints found")
+    from rules.semantic import enclosing_tests
+    n = 0
+    for c in apps:
+        for t, pol in enclosing_tests(f.node, c):
+            if not (isinstance(t, ast.Compare) and len(t.ops) == 1 and isinstance(t.ops[0], (ast.NotIn, ast.In)) and isinstance(t.comparators[0], ast.Name)):
+                continue
+            if isinstance(t.ops[0], ast.In) == pol:
+                continue        # reached when the key *is* in the set: not the first-occurrence branch
+            n += 1
+            keyx = t.left
+            for _ in range(4):
+                keyx = substitute_locals(keyx, defs)
+            txt = norm(keyx)
+            key = "read_graph:distinct-lines-distinct-constraints"
+            lossy = [x for x in ast.walk(keyx) if isinstance(x, ast.Call) and dotted(x.func) in ("set", "frozenset", "sorted", "Counter", "collections.Counter", "len", "hash")] + \
+                    [x for x in ast.walk(keyx) if isinstance(x, (ast.Set, ast.SetComp))]
+            exact = re.fullmatch(r"tuple\((.+)\)|' '\.join\((.+)\)|(\w+(\[\d*:\d*\])?(\.strip\(\))*)", txt)
+            if lossy:
+                rep.violation(RID, key, f"repeated '#S' lines are recognised by the key `{txt[:80]}`, which forgets the order / multiplicity of the nodes: two different walks over the "
+                              "same edges (`#S a b c a` and `#S b c a b`) count as one line and the later constraint is silently dropped from G.graph['constraints']", f.loc(t))
+            elif exact:
+                rep.ok(RID, key, f"repeated lines are recognised by `{txt[:60]}` (the node sequence in order)", f.loc(t))
+            else:
+                raise AnalysisError(f"read_graph: the key `{txt[:80]}` of the repeated-line filter is not recognised")
+    if n == 0:
+        rep.ok(RID, "read_graph:distinct-lines-distinct-constraints", "no line is dropped as a repetition", f.loc())
 
 
 def check(prog: Program, rep):
@@ -249,3 +288,4 @@ def check(prog: Program, rep):
     rep.rule("C20.R5", "every block is validated and gets its counts: no exit before the constraint check, n / m / w stored on every exit; weights are finite "
              "numbers; content before the first header is rejected", floor=4)
     exits_after_validation(prog, rep, "C20.R5")
+    distinct_lines_distinct_constraints(prog, rep, "C20.R5")
